@@ -194,6 +194,7 @@ Verdict(ln) ==
 \cup (IF C08_Inv(NormState(ln.final)) /\ C12_Inv(NormState(ln.final)) THEN {} ELSE {"FinalInvariants"})
 \cup (IF C08_Inv(NormState(ln.final)) /\ C09_Inv(NormState(ln.final)) THEN {} ELSE {"C08_FinalRefIntegrity"})
 \cup (IF C12_Inv(NormState(ln.final)) THEN {} ELSE {"C12_FinalConsumers"})
+\cup (IF C19_Inv(NormState(ln.final)) THEN {} ELSE {"C19_FinalIds"})
 \* C11: the views of allocations agree (usages sum rows, the per-consumer view shows one per
 \* provider and class): no duplicate rows, no rows the per-provider views cannot show
 \cup (IF ln.residue = 0 THEN {} ELSE {"C11_FinalViewsAgree"})
